@@ -11,6 +11,8 @@
 //!    with up to 999 sends per producer (at most 3 producers: ids stay below MAXID))
 //! thread ops: s (send) ts (try_send) r (recv) tr (try_recv) rt (recv_timeout 20us)
 //!             D (drain: recv until Disconnected)  y (yield)
+//!             flavour mpscb only: tsb<k> (try_send_batch of k items) sb<k> (send_batch)
+//!                                 trb<k> (try_recv_batch(k)) rb<k> (recv_batch(k))
 //! stdout per scenario:
 //!   ok runs=<n> steps=<total> events=<total> done=<completed> ...
 //!   FAIL <clause> run=<i> seed=<s> :: <detail> :: choices=<c,c,...>
@@ -54,12 +56,26 @@ trait TxH: Send {
   fn send(&mut self, p: P) -> Res;
   fn try_send(&mut self, p: P) -> Res;
   fn dup(&self) -> Option<Box<dyn TxH>>;
+  /// one result per item, in item order (batch ops exist for flavour mpscb only)
+  fn try_send_batch(&mut self, _ps: Vec<P>) -> Vec<Res> {
+    panic!("flavour has no batch send")
+  }
+  fn send_batch(&mut self, _ps: Vec<P>) -> Vec<Res> {
+    panic!("flavour has no batch send")
+  }
 }
 trait RxH: Send {
   fn recv(&mut self) -> Res;
   fn try_recv(&mut self) -> Res;
   fn recv_timeout(&mut self, d: Duration) -> Res;
   fn dup(&self) -> Option<Box<dyn RxH>>;
+  /// the values of the batch, or a single Empty / Disc
+  fn try_recv_batch(&mut self, _max: usize) -> Vec<Res> {
+    panic!("flavour has no batch recv")
+  }
+  fn recv_batch(&mut self, _max: usize) -> Vec<Res> {
+    panic!("flavour has no batch recv")
+  }
 }
 
 macro_rules! impl_tx {
@@ -144,8 +160,122 @@ macro_rules! impl_rx {
 
 impl_tx!(fibre::spsc::BoundedSyncSender<P>, |_| None);
 impl_rx!(fibre::spsc::BoundedSyncReceiver<P>, |_| None);
-impl_tx!(fibre::mpsc::BoundedSyncSender<P>, |t| Some(Box::new(t.clone())));
-impl_rx!(fibre::mpsc::BoundedSyncReceiver<P>, |_| None);
+fn forget_all(ps: Vec<P>) -> Vec<u64> {
+  ps.into_iter()
+    .map(|p| {
+      let id = p.0;
+      std::mem::forget(p);
+      id
+    })
+    .collect()
+}
+
+impl TxH for fibre::mpsc::BoundedSyncSender<P> {
+  fn send(&mut self, p: P) -> Res {
+    let id = p.0;
+    match fibre::mpsc::BoundedSyncSender::send(self, p) {
+      Ok(()) => Res::SendOk(id),
+      Err(_) => Res::SendClosedDropped(id),
+    }
+  }
+  fn try_send(&mut self, p: P) -> Res {
+    let id = p.0;
+    match fibre::mpsc::BoundedSyncSender::try_send(self, p) {
+      Ok(()) => Res::SendOk(id),
+      Err(fibre::TrySendError::Full(v)) => {
+        std::mem::forget(v);
+        Res::SendFull(id)
+      }
+      Err(fibre::TrySendError::Closed(v)) | Err(fibre::TrySendError::Sent(v)) => {
+        std::mem::forget(v);
+        Res::SendClosed(id)
+      }
+    }
+  }
+  fn dup(&self) -> Option<Box<dyn TxH>> {
+    Some(Box::new(self.clone()))
+  }
+  fn try_send_batch(&mut self, ps: Vec<P>) -> Vec<Res> {
+    let ids: Vec<u64> = ps.iter().map(|p| p.0).collect();
+    match fibre::mpsc::BoundedSyncSender::try_send_batch(self, ps) {
+      Ok(n) => ids[..n].iter().map(|i| Res::SendOk(*i)).collect(),
+      Err(e) => {
+        let closed = matches!(e.reason, fibre::error::BatchSendErrorReason::Closed);
+        let back = forget_all(e.unsent);
+        let mut out: Vec<Res> = ids[..e.sent].iter().map(|i| Res::SendOk(*i)).collect();
+        out.extend(back.into_iter().map(|i| if closed { Res::SendClosed(i) } else { Res::SendFull(i) }));
+        out
+      }
+    }
+  }
+  fn send_batch(&mut self, ps: Vec<P>) -> Vec<Res> {
+    let ids: Vec<u64> = ps.iter().map(|p| p.0).collect();
+    match fibre::mpsc::BoundedSyncSender::send_batch(self, ps) {
+      Ok(n) => ids[..n].iter().map(|i| Res::SendOk(*i)).collect(),
+      Err(e) => {
+        let back = forget_all(e.unsent);
+        let mut out: Vec<Res> = ids[..e.sent].iter().map(|i| Res::SendOk(*i)).collect();
+        out.extend(back.into_iter().map(Res::SendClosed));
+        out
+      }
+    }
+  }
+}
+
+fn vals(v: Vec<P>) -> Vec<Res> {
+  forget_all(v).into_iter().map(Res::Val).collect()
+}
+
+impl RxH for fibre::mpsc::BoundedSyncReceiver<P> {
+  fn recv(&mut self) -> Res {
+    match fibre::mpsc::BoundedSyncReceiver::recv(self) {
+      Ok(v) => {
+        let id = v.0;
+        std::mem::forget(v);
+        Res::Val(id)
+      }
+      Err(_) => Res::Disc,
+    }
+  }
+  fn try_recv(&mut self) -> Res {
+    match fibre::mpsc::BoundedSyncReceiver::try_recv(self) {
+      Ok(v) => {
+        let id = v.0;
+        std::mem::forget(v);
+        Res::Val(id)
+      }
+      Err(fibre::TryRecvError::Empty) => Res::Empty,
+      Err(fibre::TryRecvError::Disconnected) => Res::Disc,
+    }
+  }
+  fn recv_timeout(&mut self, d: Duration) -> Res {
+    match fibre::mpsc::BoundedSyncReceiver::recv_timeout(self, d) {
+      Ok(v) => {
+        let id = v.0;
+        std::mem::forget(v);
+        Res::Val(id)
+      }
+      Err(fibre::RecvErrorTimeout::Timeout) => Res::Timeout,
+      Err(fibre::RecvErrorTimeout::Disconnected) => Res::Disc,
+    }
+  }
+  fn dup(&self) -> Option<Box<dyn RxH>> {
+    None
+  }
+  fn try_recv_batch(&mut self, max: usize) -> Vec<Res> {
+    match fibre::mpsc::BoundedSyncReceiver::try_recv_batch(self, max) {
+      Ok(v) => vals(v),
+      Err(fibre::TryRecvError::Empty) => vec![Res::Empty],
+      Err(fibre::TryRecvError::Disconnected) => vec![Res::Disc],
+    }
+  }
+  fn recv_batch(&mut self, max: usize) -> Vec<Res> {
+    match fibre::mpsc::BoundedSyncReceiver::recv_batch(self, max) {
+      Ok(v) => vals(v),
+      Err(_) => vec![Res::Disc],
+    }
+  }
+}
 impl_tx!(fibre::mpsc::UnboundedSyncSender<P>, |t| Some(Box::new(t.clone())));
 impl_rx!(fibre::mpsc::UnboundedSyncReceiver<P>, |_| None);
 impl_tx!(fibre::mpmc::Sender<P>, |t| Some(Box::new(t.clone())));
@@ -315,6 +445,21 @@ fn run_once(sc: &Scenario, policy: Policy, record: bool) -> OneRun {
               out.push(r);
             }
             "y" => std::thread::yield_now(),
+            o if o.starts_with("tsb") || o.starts_with("sb") => {
+              let blocking = o.starts_with("sb");
+              let k: usize = o[if blocking { 2 } else { 3 }..].parse().expect("batch size");
+              let ps: Vec<P> = (0..k)
+                .map(|_| {
+                  seq += 1;
+                  P(base + seq)
+                })
+                .collect();
+              let rs = if blocking { tx.send_batch(ps) } else { tx.try_send_batch(ps) };
+              for r in rs {
+                sent(&r);
+                out.push(r);
+              }
+            }
             o => panic!("bad producer op {o}"),
           }
         }
@@ -356,6 +501,15 @@ fn run_once(sc: &Scenario, policy: Policy, record: bool) -> OneRun {
               }
             },
             "y" => std::thread::yield_now(),
+            o if o.starts_with("trb") || o.starts_with("rb") => {
+              let blocking = o.starts_with("rb");
+              let k: usize = o[if blocking { 2 } else { 3 }..].parse().expect("batch max");
+              let st = stamp();
+              let rs = if blocking { rx.recv_batch(k) } else { rx.try_recv_batch(k) };
+              for r in rs {
+                out.push(took(st, r));
+              }
+            }
             o => panic!("bad consumer op {o}"),
           }
           // publish progressively so a deadlocked run still shows what was received
